@@ -48,6 +48,10 @@ pub struct Case {
     pub cache: bool,
     /// Some(ms): checkout-timeout class — connect_timeout is this small and holders hold longer
     pub connect_timeout: Option<u16>,
+    /// where the effective connect_timeout is written: 0 = [general] only; 1 = pool level, 2 = user level, 3 = user level with a
+    /// decoy at pool level - in 1..3 [general] (and the pool in 3) carry a decoy value that must not take effect
+    #[serde(default)]
+    pub ct_layout: u8,
     pub failure_limit: Option<u8>,
     pub clients: Vec<Vec<Act>>,
     /// kill every established backend session at these times (ms after start)
@@ -84,8 +88,9 @@ pub fn case_strategy() -> BoxedStrategy<Case> {
         prop::collection::vec(prop::collection::vec(act_strategy(), 1..5), 1..14),
         prop::collection::vec(5u16..120, 0..2),
         any::<u16>(),
+        prop_oneof![3 => Just(0u8), 1 => Just(1u8), 1 => Just(2u8), 2 => Just(3u8)],
     )
-        .prop_map(|(pool_size, session_mode, workers, cache, connect_timeout, failure_limit, mut clients, server_kills, k)| {
+        .prop_map(|(pool_size, session_mode, workers, cache, connect_timeout, failure_limit, mut clients, server_kills, k, ct_layout)| {
             // client count between pool_size and 3*pool_size + 1
             let lo = pool_size as usize;
             let hi = 3 * pool_size as usize + 1;
@@ -101,6 +106,7 @@ pub fn case_strategy() -> BoxedStrategy<Case> {
                 workers,
                 cache: cache && !session_mode,
                 connect_timeout,
+                ct_layout,
                 failure_limit: if connect_timeout.is_some() { failure_limit } else { None },
                 clients,
                 server_kills,
@@ -121,7 +127,7 @@ impl Part for WirePart {
         true
     }
     fn rule(&self) -> String {
-        "pool_size 1..4, clients pool_size..3*pool_size+1, both pool modes; per-client histories of generated transactions mixed with aborts (socket drop between transactions, inside a transaction, before a delayed reply, after part of a message), Terminate, statement errors, server closing mid-reply, lone Sync, failed COPY followed by a failing statement, plus 0..2 kills of all backend sessions; a separate class has a 60..200 ms connect_timeout (optionally checkout_failure_limit) so waiters time out. Oracle: live authenticated sessions per mock listener never exceed pool_size for > 300 ms; every request of a live client is answered (or refused with the pool error and the client stays usable); afterwards pool_size probe clients hold pool_size simultaneous transactions and SHOW POOLS/SERVERS report nothing active. Non-trivial = at least one abort/fault while a connection was held AND more clients than pool_size".into()
+        "pool_size 1..4, clients pool_size..3*pool_size+1, both pool modes; per-client histories of generated transactions mixed with aborts (socket drop between transactions, inside a transaction, before a delayed reply, after part of a message), Terminate, statement errors, server closing mid-reply, lone Sync, failed COPY followed by a failing statement, plus 0..2 kills of all backend sessions; a separate class has a 60..200 ms connect_timeout (optionally checkout_failure_limit) so waiters time out; the effective connect_timeout is written at [general], pool or user level, with a decoy value (450 ms resp. 5 s) at the less specific levels that must not take effect. Oracle: live authenticated sessions per mock listener never exceed pool_size for > 300 ms; every request of a live client is answered (or refused with the pool error and the client stays usable); afterwards pool_size probe clients hold pool_size simultaneous transactions and SHOW POOLS/SERVERS report nothing active. Non-trivial = at least one abort/fault while a connection was held AND more clients than pool_size".into()
     }
     fn cases(&self, tier: Tier) -> u64 {
         tier.pick(1_200, 18_000)
@@ -137,9 +143,27 @@ impl Part for WirePart {
 fn config(mocks: &[crate::mock::MockServer], c: &Case) -> PgcatConfig {
     let mut cfg = PgcatConfig::new();
     cfg.set_general("worker_threads", &c.workers.to_string());
-    cfg.set_general("connect_timeout", &c.connect_timeout.map(|x| x as u32).unwrap_or(5000).to_string());
+    // effective value E and a decoy D that a less specific level carries: user level beats pool level beats [general]
+    let e = c.connect_timeout.map(|x| x as u32).unwrap_or(5000);
+    let d = decoy_ms(c);
     let servers = vec![ServerDef { host: mocks[0].ip.clone(), port: mocks[0].port, role: "primary".into() }];
     let mut pool = pgc::simple_pool("db", "u", "pw", c.pool_size as u32, servers);
+    match c.ct_layout {
+        1 => {
+            cfg.set_general("connect_timeout", &d.to_string());
+            pool.set("connect_timeout", &e.to_string());
+        }
+        2 => {
+            cfg.set_general("connect_timeout", &d.to_string());
+            pool.users[0].extra.push(("connect_timeout".into(), e.to_string()));
+        }
+        3 => {
+            cfg.set_general("connect_timeout", &d.to_string());
+            pool.set("connect_timeout", &d.to_string());
+            pool.users[0].extra.push(("connect_timeout".into(), e.to_string()));
+        }
+        _ => cfg.set_general("connect_timeout", &e.to_string()),
+    }
     if c.session_mode {
         pool.set("pool_mode", "\"session\"");
     }
@@ -151,6 +175,15 @@ fn config(mocks: &[crate::mock::MockServer], c: &Case) -> PgcatConfig {
     }
     cfg.pools.push(pool);
     cfg
+}
+
+/// The value written at the less specific configuration level(s): long when the effective timeout is short and vice versa.
+fn decoy_ms(c: &Case) -> u32 {
+    if c.connect_timeout.is_some() {
+        5000
+    } else {
+        450
+    }
 }
 
 #[derive(Debug)]
@@ -179,7 +212,10 @@ async fn run_case(c: &Case, ctx: &mut WorkerCtx) -> Outcome {
     };
     let t0 = std::time::Instant::now();
     let timeout_class = c.connect_timeout.is_some();
-    let hold_extra: u16 = c.connect_timeout.map(|t| t + 120).unwrap_or(0);
+    // with a short decoy at a less specific level some holders keep their connection longer than the decoy, so that a waiter
+    // would be turned away if the decoy were in effect
+    let decoy_hold = c.connect_timeout.is_none() && c.ct_layout > 0;
+    let hold_extra: u16 = c.connect_timeout.map(|t| t + 120).unwrap_or(if decoy_hold { 600 } else { 0 });
     let mut handles = vec![];
     let done = std::sync::Arc::new(std::sync::atomic::AtomicUsize::new(0));
     let release = std::sync::Arc::new(tokio::sync::Notify::new());
@@ -218,7 +254,7 @@ async fn run_case(c: &Case, ctx: &mut WorkerCtx) -> Outcome {
                         }
                         for (k, rq) in txn.reqs.iter().enumerate() {
                             // in the timeout class the first statement of odd clients holds the server long enough
-                            match (rq, k == 0 && timeout_class && id % 2 == 1) {
+                            match (rq, k == 0 && (timeout_class || decoy_hold) && id % 2 == 1) {
                                 (Req::Simple(v), true) => {
                                     let mut v = v.clone();
                                     v[0].delay_ms = v[0].delay_ms.max(hold_extra);
@@ -346,7 +382,10 @@ async fn run_case(c: &Case, ctx: &mut WorkerCtx) -> Outcome {
     let mut mid_problem: Option<(String, String)> = None;
     if !c.session_mode && done.load(std::sync::atomic::Ordering::SeqCst) == c.clients.len() {
         tokio::time::sleep(Duration::from_millis(20)).await;
-        if let Some(p) = capacity_probe(&env, c, t0, 200).await {
+        // (the admin view first: the capacity probe uses every connection and would refresh a stale "active" mark)
+        if let Some(p) = admin_idle_check(&env).await {
+            mid_problem = Some(("server-marked-active-while-clients-idle".into(), p));
+        } else if let Some(p) = capacity_probe(&env, c, t0, 200).await {
             mid_problem = Some(("capacity-lost-while-clients-idle".into(), p));
         } else if let Some(p) = admin_idle_check(&env).await {
             mid_problem = Some(("server-marked-active-while-clients-idle".into(), p));
@@ -364,8 +403,15 @@ async fn run_case(c: &Case, ctx: &mut WorkerCtx) -> Outcome {
 
     // ---- (d) after everyone left: full capacity is available again, nothing is marked in use
     tokio::time::sleep(Duration::from_millis(30)).await;
+    let admin_before: Option<String> = if !c.session_mode { admin_idle_check(&env).await } else { None };
     let capacity_problem: Option<String> = capacity_probe(&env, c, t0, 100).await;
-    let admin_problem: Option<String> = if capacity_problem.is_none() && !c.session_mode { admin_idle_check(&env).await } else { None };
+    let admin_problem: Option<String> = if admin_before.is_some() {
+        admin_before
+    } else if capacity_problem.is_none() && !c.session_mode {
+        admin_idle_check(&env).await
+    } else {
+        None
+    };
     let log = env.log();
     let stderr = env.pg.stderr_tail(1000);
     env.finish().await;
@@ -397,6 +443,12 @@ async fn run_case(c: &Case, ctx: &mut WorkerCtx) -> Outcome {
     // ---- (b) waiters served / clients usable
     for r in &results {
         if let Some(st) = &r.stall {
+            // pgcat marks a pool as down when its start-up validation does not finish within connect_timeout; with the short
+            // generated connect_timeout that happens when this machine (harness and mock backends included) is starved of CPU
+            if st.contains("Pool down") && stderr.contains("Could not validate connection pool") {
+                o.inconclusive = Some(format!("pool validation at start-up timed out (CPU starvation): {}", st));
+                return o;
+            }
             o.fail("client-not-served", format!("client c{}: {}; pgcat stderr: {}", r.id, st, stderr));
             return o;
         }
